@@ -1322,14 +1322,38 @@ theorem sim_stmt (c : Ctx) : (st : Stmt) → ∀ (inBlock : Bool) (sn sn' : Seen
         exact ⟨s', ns', by simp only [execStmt, hr, Bool.false_eq_true, if_false]; exact hb,
           by simp only [PySem.execStmt, hi, if_true]; exact hp, R'⟩
   | .block k body tail, _, sn, sn', s, ns, R, h => by
-    simp only [checkStmt] at h
-    split at h
-    · rename_i ht
-      obtain ⟨s', ns', hb, hp, R'⟩ := sim_list c body true sn sn' s ns R h
-      refine ⟨s', ns', by simp only [execStmt]; exact hb, ?_, R'⟩
-      simp only [PySem.execStmt, hp]
-      cases k <;> simp [inert_exec c tail ns' ht]
-    · simp at h
+    cases k with
+    | elseTaken => simp [checkStmt] at h
+    | ifTaken =>
+      simp only [checkStmt] at h
+      split at h
+      · rename_i ht
+        obtain ⟨s', ns', hb, hp, R'⟩ := sim_list c body true sn sn' s ns R h
+        exact ⟨s', ns', by simp only [execStmt]; exact hb, by simp [PySem.execStmt, hp], R'⟩
+      · simp at h
+    | «with» =>
+      simp only [checkStmt] at h
+      split at h
+      · rename_i ht
+        obtain ⟨s', ns', hb, hp, R'⟩ := sim_list c body true sn sn' s ns R h
+        exact ⟨s', ns', by simp only [execStmt]; exact hb, by simp [PySem.execStmt, hp], R'⟩
+      · simp at h
+    | «try» =>
+      simp only [checkStmt] at h
+      split at h
+      · rename_i ht
+        obtain ⟨s', ns', hb, hp, R'⟩ := sim_list c body true sn sn' s ns R h
+        exact ⟨s', ns', by simp only [execStmt]; exact hb, by simp [PySem.execStmt, hp, inert_exec c tail ns' ht], R'⟩
+      · simp at h
+    | «for» =>
+      simp only [checkStmt] at h
+      split at h
+      · rename_i ht
+        obtain ⟨s', ns', hb, hp, R'⟩ := sim_list c body true sn sn' s ns R h
+        exact ⟨s', ns', by simp only [execStmt]; exact hb, by simp [PySem.execStmt, hp, inert_exec c tail ns' ht], R'⟩
+      · simp at h
+  | .aliasAssign n src, _, _, _, _, _, _, h => by simp [checkStmt] at h
+  | .wrapAssign n d src, _, _, _, _, _, _, h => by simp [checkStmt] at h
 theorem sim_list (c : Ctx) : (l : List Stmt) → ∀ (inBlock : Bool) (sn sn' : Seen) (s : State) (ns : PySem.Ns),
     Rel c sn s ns → checkList c sn l = some sn' →
     ∃ s' ns', execList c inBlock s l = .ok s' ∧ PySem.execList c ns l = .ok ns' ∧ Rel c sn' s' ns'
@@ -1699,6 +1723,30 @@ theorem documented_eq_bound_inherited_counterexample_old :
     documented (cx true [nF]) [.assign nF .int none] = [(nF, .variable)] ∧
     bound (cx true [nF]) [.assign nF .int none] = [(nF, .variable)] ∧
     inSubset (cx true [nF]) [.assign nF .int none] = true := by decide
+
+/-- a definition in the part of an `if`/`try` that DOES run when the test is false / the body raises at once (the `else:`
+branch, the `except` handler) is bound by CPython and not documented; a definition in the part that does not run is
+documented and not bound (`get_children` yields `node.body` only) -/
+theorem documented_eq_bound_else_taken_counterexample :
+    documented (cx false) [.block .elseTaken [.other] [.funcDef nF false [] none, .assign nW .none none]] = [] ∧
+    bound (cx false) [.block .elseTaken [.other] [.funcDef nF false [] none, .assign nW .none none]]
+      = [(nF, .function), (nW, .variable)] ∧
+    documented (cx false) [.block .elseTaken [.funcDef nG false [] none] [.other]] = [(nG, .function)] ∧
+    bound (cx false) [.block .elseTaken [.funcDef nG false [] none] [.other]] = [] := by decide
+
+/-- `name = other_name`: `_handleAliasing` records an alias and documents nothing; CPython binds the name -/
+theorem documented_eq_bound_alias_counterexample :
+    documented (cx false) [.assign nW .int none, .aliasAssign nX nW, .funcDef nF false [] none, .aliasAssign nG nF]
+      = [(nW, .variable), (nF, .function)] ∧
+    bound (cx false) [.assign nW .int none, .aliasAssign nX nW, .funcDef nF false [] none, .aliasAssign nG nF]
+      = [(nW, .variable), (nX, .variable), (nF, .function), (nG, .foreign)] := by decide
+
+/-- `x = property(getter)` / `make = staticmethod(_make)`: documented as a class variable, bound to a property / staticmethod -/
+theorem kind_eq_wrapassign_counterexample :
+    documented (cx true) [.funcDef nG false [] (some "getter".toList), .wrapAssign nX .property nG, .wrapAssign nW .staticmethod nG]
+      = [(nG, .method), (nX, .variable), (nW, .variable)] ∧
+    bound (cx true) [.funcDef nG false [] (some "getter".toList), .wrapAssign nX .property nG, .wrapAssign nW .staticmethod nG]
+      = [(nG, .method), (nX, .property), (nW, .staticmethod)] := by decide
 
 /-- a definition in a `finally:` part is bound by CPython and not documented -/
 theorem documented_eq_bound_tail_counterexample :
